@@ -13,6 +13,7 @@ func init() {
 			"PV-PAIR / PV-CONST: json field list polarity and key identity; logfmt requested-key table; regexp capture index pairing; unpack's _entry; extractAll sanitises keys (C20)",
 			"CH-MAP: jsonexpr.walk token kind -> exposed text (number through d.Num, no float conversion); PV-OKUSE: parseValue's nested elements used only under ok",
 			"PV-ORDER / FE-BOOL: jsonexpr push/walk/pop, index increment, extract only under current.Equal(path)",
+			"LP-ATTEMPT: every return of a parser stage is behind a call handing the line to the extraction step; PV-GUARD: unpack validates a key only when the field becomes a label",
 		},
 		NotDecided: []string{"that jx, logfmt and regexp return the values that are in the document", "logqlpattern.Match's literal/capture alternation", "JSON path parsing"},
 		Rules: func(r *Run) {
